@@ -32,6 +32,13 @@ def check_C14(tier):
             rep.floor("%s: bellerophon table obligations" % cfg, len(obs), 1 + 10 + 10 + 66 + 70)
         else:
             rep.floor("%s: table obligations" % cfg, len(obs), 1 + 651 + 28 + 20 + 2 + 11 + 23 + 1)
+    # bundled libm (only compiled without std): split constants of powf/powd
+    lcl = ["nostd_compact"] if tier == "quick" else [c for c in F.ALL_CONFIGS if c.startswith("nostd")]
+    lfx = F.build_many([(c, "rel") for c in lcl])
+    for c in lcl:
+        lobs = K.libm_rules(lfx[(c, "rel")])
+        rep.add("%s libm" % c, lobs)
+        rep.floor("%s: libm split-constant obligations" % c, len(lobs), 14)
     rep.analysed = {"configurations": sorted(c for c, _ in fx), "facts_sha": {c: f.sha[:16] for (c, _), f in fx.items()}}
     # on-demand integer powers (compact): u64::pow(e) is the exact power only if it cannot overflow -- E4 obligations `pow-no-overflow`
     pcl = ["compact"] if tier == "quick" else ["compact", "nostd_compact"]
@@ -41,7 +48,8 @@ def check_C14(tier):
     pfx = F.build_many([(c, "rel") for c in pcl])
     _e4_report(rep, "C14", results, lambda j: "%s/%s on-demand powers" % (j["config"], j["mode"]),
                {"%s/%s on-demand powers" % (c, m): pfx[(c, "rel")] for c in pcl for m in ("dbg", "rel")}, floor_per_group=1)
-    rep.note("not decided: exactness of powf/powd (std or bundled libm) used for float powers in compact builds. On-demand integer powers: every "
+    rep.note("not decided: exactness of powf/powd (std or bundled libm) used for float powers in compact builds; decided for the bundled libm: its split constants "
+             "(ln 2, 2/(3 ln 2), 1/ln 2, log2 1.5 as head + tail) equal their definitions to 14 bits beyond the working precision. On-demand integer powers: every "
              "u64::pow call site reachable from try_fast_path / bigint::pow (thorough: parse_mantissa) in the compact configurations is proven overflow-free (E4)")
     return rep.finish(
         "proof",
